@@ -29,12 +29,13 @@ struct T4 : TB { __m256i creg[3], areg[3], breg[3], auxreg[3]; };
 #ifdef __AVX512__
 struct T8 : TB { __m512i creg[3], areg[3], breg[3], auxreg[3]; };
 #endif
-struct Row { const char *decl; int line; OpK op; int L; int dA; bool cA; Shape A; int dB; bool cB; Shape B; Shape C; Aux aux; void (*call)(TB &); void (*call_ca)(TB &); void (*call_cb)(TB &); };
+struct Row { const char *decl; int line; OpK op; int L; int dA; bool cA; Shape A; int dB; bool cB; Shape B; Shape C; Aux aux; void (*call)(TB &); void (*call_ca)(TB &); void (*call_cb)(TB &); int w32; /* bit 0/1/2: the stride parameter of a / b / c is a 32-bit integer */ };
 static const Row ROWS[] = {
 #include "c16_table.inc"
 };
 static const int NROWS = sizeof(ROWS) / sizeof(ROWS[0]);
 static const uint64_t SENT = 0x5E47BBBB5E47BBBBull;
+static uint64_t other_rep3(uint64_t x) { return x < 0xFFFFFFFFull ? x + PR : x >= PR ? x - PR : x; }
 static bool is_arr(Shape s) { return s <= S_ARR_CONST; }
 
 // payload: [row, sa, sb, sc, ia[8], ib[8], ic[8], junk, pool[48]]
@@ -73,7 +74,8 @@ static void fill_input(Operand &o, const Case &c, int which, uint64_t junk)
     if (is_arr(o.s)) {
         // exact extent: the arena ends at a guard page (ASan build: exact-size malloc), one element past the last designated cell faults
         o.gb.alloc(o.size * sizeof(E)); o.arena = o.gb.as<E>(); o.guarded = true; // exact extent
-        for (uint64_t i = 0; i < o.size; i++) o.arena[i].fe = pbt::mix(junk, i + 1000 * which);
+        if (!o.gb.sparse) for (uint64_t i = 0; i < o.size; i++) o.arena[i].fe = pbt::mix(junk, i + 1000 * which);
+        else for (int k = 0; k < o.L; k++) for (int d = -1; d <= o.dim; d++) { uint64_t i = o.pos[k] + (uint64_t)d; if (i < o.size) o.arena[i].fe = pbt::mix(junk, i + 1000 * which); } // huge extent: junk around the designated cells only
         for (int k = 0; k < o.L; k++) for (int i = 0; i < o.dim; i++) o.arena[o.pos[k] + i].fe = pool[(3 * k + i) % np];
         for (int k = 0; k < o.L; k++) for (int i = 0; i < o.dim; i++) o.eff[k][i] = o.arena[o.pos[k] + i].fe; // overlapping / repeated positions: last write wins
     } else if (o.s == S_SCALAR) { for (int k = 0; k < o.L; k++) o.eff[k] = {pool[0], 0, 0}; }
@@ -97,11 +99,32 @@ static bool run_row(const Row &r, const Case &c, uint64_t junk, std::vector<ref:
     const int L = r.L;
     Operand A, B, C; A.s = r.A; B.s = r.B; C.s = r.C; A.L = B.L = C.L = L; A.dim = r.dA; B.dim = r.dB; C.dim = 3;
     positions(A, c.v[P_SA], &c.v[P_IA]); positions(B, c.v[P_SB], &c.v[P_IB]); positions(C, c.v[P_SC], &c.v[P_IC]);
+    const bool big = (A.s == S_ARR_STRIDE && c.v[P_SA] >= (1ull << 32)) || (B.s == S_ARR_STRIDE && c.v[P_SB] >= (1ull << 32)) || (C.s == S_ARR_STRIDE && c.v[P_SC] >= (1ull << 32));
+    const bool shared = !big && !alias && ((c.v[P_JUNK] >> 40) & 7) == 1 && is_arr(A.s) && is_arr(B.s) && A.s != S_ARR_CONST && B.s != S_ARR_CONST;
+    if (shared) {
+        // both inputs are given by the SAME base pointer (one array, two strides / index lists): junk, then the a-values, then the b-values
+        const uint64_t *pa = &c.v[P_POOL], *pb = &c.v[P_POOL + NPOOL / 2]; const int np = NPOOL / 2;
+        uint64_t sz = std::max(A.size, B.size); A.size = sz;
+        A.gb.alloc(sz * sizeof(E)); A.arena = A.gb.as<E>(); A.guarded = true;
+        for (uint64_t i = 0; i < sz; i++) A.arena[i].fe = pbt::mix(junk, i);
+        for (int k = 0; k < L; k++) for (int i = 0; i < A.dim; i++) A.arena[A.pos[k] + i].fe = pa[(3 * k + i) % np];
+        for (int k = 0; k < L; k++) for (int i = 0; i < B.dim; i++) A.arena[B.pos[k] + i].fe = pb[(3 * k + i) % np];
+        A.eff.assign(L, ref::E3{0, 0, 0}); B.eff.assign(L, ref::E3{0, 0, 0});
+        for (int k = 0; k < L; k++) { for (int i = 0; i < A.dim; i++) A.eff[k][i] = A.arena[A.pos[k] + i].fe; for (int i = 0; i < B.dim; i++) B.eff[k][i] = A.arena[B.pos[k] + i].fe; }
+        B.arena = A.arena; B.guarded = true; B.size = 0;
+    } else {
     fill_input(A, c, 0, junk); fill_input(B, c, 1, junk ^ 0xB0B);
+    }
     std::vector<uint64_t> a0, b0;
-    if (A.arena) { a0.resize(A.size); for (uint64_t i = 0; i < A.size; i++) a0[i] = A.arena[i].fe; }
-    if (B.arena) { b0.resize(B.size); for (uint64_t i = 0; i < B.size; i++) b0[i] = B.arena[i].fe; }
-    const uint64_t guard = SAN ? 0 : 8;
+    if (A.arena && !A.gb.sparse) { a0.resize(A.size); for (uint64_t i = 0; i < A.size; i++) a0[i] = A.arena[i].fe; }
+    if (B.arena && !B.gb.sparse) { b0.resize(B.size); for (uint64_t i = 0; i < B.size; i++) b0[i] = B.arena[i].fe; }
+    uint64_t guard = SAN ? 0 : 8;
+    const bool csparse = is_arr(C.s) && C.size * sizeof(E) >= ((size_t)1 << 26);
+    if (csparse) { guard = 0; C.gb.alloc(C.size * sizeof(E)); C.arena = C.gb.as<E>(); C.guarded = true;
+        for (int k = 0; k < L; k++) for (int d = -2; d <= 4; d++) { uint64_t i = C.pos[k] + (uint64_t)d; if (i < C.size) C.arena[i].fe = SENT + i; }
+    } else if (is_arr(C.s) && (junk & 2)) { // exact extent ending at an inaccessible page (the other run of the case has sentinel cells after the extent instead)
+        guard = 0; C.gb.alloc(C.size * sizeof(E)); C.arena = C.gb.as<E>(); C.guarded = true; for (uint64_t i = 0; i < C.size; i++) C.arena[i].fe = SENT + i;
+    } else
     if (is_arr(C.s)) { C.arena = (E *)malloc((C.size + guard) * sizeof(E)); for (uint64_t i = 0; i < C.size + guard; i++) C.arena[i].fe = SENT + i; }
     // precomputed "challenge sums" of the second operand: (b0+b1, b0+b2, b1+b2), now and then as non-canonical representatives
     std::vector<ref::E3> aux(L);
@@ -167,13 +190,16 @@ static bool run_row(const Row &r, const Case &c, uint64_t junk, std::vector<ref:
         ref::E3 want = r.op == OP_ADD ? ref::add3(A.eff[k], B.eff[k]) : r.op == OP_SUB ? ref::sub3(A.eff[k], B.eff[k]) : ref::mul3(A.eff[k], B.eff[k]);
         if (ref::can3(out[k]) != want) { why = "element " + std::to_string(k) + ": got " + s3(ref::can3(out[k])) + " want " + s3(want) + " (a=" + s3(A.eff[k]) + " b=" + s3(B.eff[k]) + ")"; return false; }
     }
-    if (C.arena) {
+    if (C.arena && csparse) {
+        for (int k = 0; k < L; k++) for (int d = -2; d <= 4; d++) { uint64_t i = C.pos[k] + (uint64_t)d; bool des = false; for (int q = 0; q < L; q++) if (i >= C.pos[q] && i < C.pos[q] + 3) des = true;
+            if (i < C.size && !des && C.arena[i].fe != SENT + i) { why = "wrote output position " + std::to_string(i) + " which its strides do not designate"; return false; } }
+    } else if (C.arena) {
         std::vector<bool> des(C.size + guard, false);
         for (int k = 0; k < L; k++) for (int i = 0; i < 3; i++) des[C.pos[k] + i] = true;
         for (uint64_t i = 0; i < C.size + guard; i++) if (!des[i] && C.arena[i].fe != SENT + i) { why = "wrote output position " + std::to_string(i) + " which its strides do not designate"; return false; }
     }
-    if (A.arena) for (uint64_t i = 0; i < A.size; i++) if (A.arena[i].fe != a0[i]) { why = "modified its first input operand"; return false; }
-    if (B.arena) for (uint64_t i = 0; i < B.size; i++) if (B.arena[i].fe != b0[i]) { why = "modified its second input operand"; return false; }
+    if (A.arena && !A.gb.sparse && !a0.empty()) for (uint64_t i = 0; i < A.size; i++) if (A.arena[i].fe != a0[i]) { why = shared ? "modified its input array" : "modified its first input operand"; return false; }
+    if (B.arena && !B.gb.sparse && !b0.empty()) for (uint64_t i = 0; i < B.size; i++) if (B.arena[i].fe != b0[i]) { why = "modified its second input operand"; return false; }
     return true;
 }
 static const char *SN[] = {"array", "array+stride", "array+index", "const-array", "scalar", "const-ext-ref", "register", "planar-registers", "3-registers"};
@@ -183,12 +209,14 @@ static bool body_row(const Case &c, Ctx &ctx)
     ctx.cls(r.decl);
     bool nt = false;
     auto st = [&](Shape s, uint64_t stv, const uint64_t *idx, int dim, bool out) {
-        if (s == S_ARR_STRIDE && stv != 1 && stv != 3) { nt = true; ctx.cls(stv == 0 ? "shape:stride-0" : stv < (uint64_t)dim ? "shape:overlapping-input-stride" : stv >= 61 ? "shape:large-stride" : "shape:stride-not-1-or-3"); }
+        if (s == S_ARR_STRIDE && stv != 1 && stv != 3) { nt = true; ctx.cls(stv == 0 ? "shape:stride-0" : stv < (uint64_t)dim ? "shape:overlapping-input-stride" : stv >= (1ull << 32) ? "shape:stride>=2^32" : stv >= 61 ? "shape:large-stride" : "shape:stride-not-1-or-3"); }
         if (s == S_ARR_IDX) { bool id = true; for (int i = 0; i < r.L; i++) if (idx[i] != (uint64_t)i * dim) id = false; if (!id) { nt = true; ctx.cls(out ? "shape:permuted/sparse-output-index" : "shape:permuted/sparse-input-index"); } }
     };
     st(r.A, c.v[P_SA], &c.v[P_IA], r.dA, false); st(r.B, c.v[P_SB], &c.v[P_IB], r.dB, false); st(r.C, c.v[P_SC], &c.v[P_IC], 3, true);
     for (int i = 0; i < NPOOL; i++) if (c.v[P_POOL + i] >= PR) { nt = true; ctx.cls("shape:non-canonical-operand"); break; }
     if (r.aux != AUX_NONE) ctx.cls("shape:challenge-sums-operand");
+    if (((c.v[P_JUNK] >> 40) & 7) == 1 && is_arr(r.A) && is_arr(r.B) && r.A != S_ARR_CONST && r.B != S_ARR_CONST) { nt = true; ctx.cls("shape:both-inputs-one-array(same-pointer)"); }
+    { bool rel = false; const uint64_t *pb = &c.v[P_POOL + NPOOL / 2]; if (pb[1] % PR && ref::add(pb[1], pb[2]) == 0) rel = true; if (rel) ctx.cls("data:b1+b2==0"); }
     ctx.nontrivial = nt;
     std::vector<ref::E3> o1, o2; std::string why;
     std::string head = std::string(r.decl) + " [A=" + SN[r.A] + "/dim" + std::to_string(r.dA) + " B=" + SN[r.B] + "/dim" + std::to_string(r.dB) + " -> " + SN[r.C] + "] strides a,b,c=" + std::to_string(c.v[P_SA]) + "," + std::to_string(c.v[P_SB]) + "," + std::to_string(c.v[P_SC]);
@@ -218,6 +246,13 @@ static rc::Gen<std::vector<uint64_t>> gen_idx(bool out, int dim)
     return rc::gen::exec([out, dim] {
         int mode = *g::irange(0, out ? 1 : 3);
         std::vector<uint64_t> v(8);
+        int wm = *g::irange(0, 5);
+        if (wm == 0) { // cyclic window over N slots: consecutive positions that wrap round in some lane (often the last one)
+            uint64_t N = *g::range(8, 16), r0 = *g::range(0, 15) % N; if (*g::irange(0, 1)) r0 = N - (*g::irange(0, 1) ? 7 : 3);
+            for (int i = 0; i < 8; i++) v[i] = ((r0 + i) % N) * dim; return v; }
+        if (wm == 1) { // consecutive positions from a base, one lane somewhere else
+            uint64_t base = *g::range(0, 40); for (int i = 0; i < 8; i++) v[i] = (base + i) * dim;
+            int lane = *g::irange(0, 1) ? (*g::irange(0, 1) ? 7 : 3) : *g::irange(0, 7); v[lane] = (base + 8 + *g::range(0, 30)) * dim; return v; }
         if (mode == 0) { for (int i = 0; i < 8; i++) v[i] = (uint64_t)i * dim; auto perm = *rc::gen::container<std::vector<uint64_t>>(8, g::range(0, 7)); for (int i = 0; i < 8; i++) std::swap(v[i], v[perm[i]]); }
         else if (mode == 1) { uint64_t base = 0; for (int i = 0; i < 8; i++) { v[i] = base; base += *g::range(dim, 130); } auto perm = *rc::gen::container<std::vector<uint64_t>>(8, g::range(0, 7)); for (int i = 0; i < 8; i++) std::swap(v[i], v[perm[i]]); }
         else if (mode == 2) { for (int i = 0; i < 8; i++) v[i] = (uint64_t)i * dim; }
@@ -234,10 +269,35 @@ static rc::Gen<std::vector<uint64_t>> gen_row_case(std::vector<int> rows)
         v[P_ROW] = ri;
         static const std::vector<uint64_t> SI{0, 1, 2, 3, 4, 5, 7, 61, 1000}, SO{3, 4, 5, 7, 61, 1000};
         v[P_SA] = *rc::gen::elementOf(SI); v[P_SB] = *rc::gen::elementOf(SI); v[P_SC] = *rc::gen::elementOf(SO);
+        // strides that do not fit 32 bits (sparse arenas), except where the routine itself declares a 32-bit stride parameter
+        if (*g::irange(0, 15) == 0) { int w = *g::irange(0, 2); uint64_t big = (1ull << 32) + (uint64_t)*g::irange(3, 9);
+            if (w == 0 && !(r.w32 & 1)) v[P_SA] = big; else if (w == 1 && !(r.w32 & 2)) v[P_SB] = big; else if (w == 2 && !(r.w32 & 4)) v[P_SC] = big; }
         auto ia = *gen_idx(false, r.dA), ib = *gen_idx(false, r.dB), ic = *gen_idx(true, 3);
         for (int k = 0; k < 8; k++) { v[P_IA + k] = ia[k]; v[P_IB + k] = ib[k]; v[P_IC + k] = ic[k]; }
         v[P_JUNK] = *g::uni64();
         auto pool = *rc::gen::weightedOneOf<std::vector<uint64_t>>({{5, g::fe_vec(NPOOL)}, {1, rc::gen::map(g::fe_vec(NPOOL), [](std::vector<uint64_t> p) { for (size_t i = 0; i < p.size(); i += 2) p[i] = (i % 3) ? 0 : PR; return p; })}});
+        // related coefficients inside an element and between the two operands (sums / differences that vanish although no coefficient does)
+        if (*g::irange(0, 5) == 0) {
+            const int np = NPOOL / 2; int m = *g::irange(0, 9), side = *g::irange(0, 2);
+            for (int h = 0; h < 2; h++) { if (side != 2 && side != h) continue;
+                uint64_t *q = &pool[h * np];
+                for (int k = 0; k + 2 < np; k += 3) {
+                    auto neg = [](uint64_t x) { return ref::sub(0, x); };
+                    switch (m) {
+                    case 0: q[k + 2] = neg(q[k + 1]); break;                 // c1 + c2 = 0
+                    case 1: q[k + 1] = neg(q[k]); break;                     // c0 + c1 = 0
+                    case 2: q[k + 2] = neg(q[k]); break;                     // c0 + c2 = 0
+                    case 3: q[k + 2] = q[k + 1]; break;                      // c1 = c2
+                    case 4: q[k + 1] = q[k]; q[k + 2] = q[k]; break;         // all equal
+                    case 5: q[k + 2] = neg(ref::add(q[k], q[k + 1])); break; // c0 + c1 + c2 = 0
+                    case 6: q[k + 1] = 0; q[k + 2] = (k & 1) ? PR : 0; break; // an embedded base element
+                    case 7: q[k] = 0; break;
+                    case 8: q[k + 1] = other_rep3(q[k + 1]); q[k + 2] = neg(q[k + 1]); if (q[k + 2] < 0xFFFFFFFFull) q[k + 2] += PR; break; // c1 + c2 = 0, non-canonical representatives
+                    default: if (h == 1) { uint64_t *a = &pool[0]; q[k] = neg(a[k]); q[k + 1] = neg(a[k + 1]); q[k + 2] = a[k + 2]; } break; // b related to a
+                    }
+                }
+            }
+        }
         for (int i = 0; i < NPOOL; i++) v[P_POOL + i] = pool[i];
         return v;
     });
